@@ -551,6 +551,26 @@ func checkMethodData(c *Ctx, r *Repo, ip *packages.Package, md *ast.FuncDecl) {
 					}
 				}
 			case *ast.AssignStmt:
+				// the element may be filled field by field: slice[j].Var = v; slice[j].Variadic = <expr>
+				if len(x.Lhs) == 1 && len(x.Rhs) == 1 {
+					if se, ok := x.Lhs[0].(*ast.SelectorExpr); ok {
+						if ie, ok := ast.Unparen(se.X).(*ast.IndexExpr); ok {
+							if sid, ok := ie.X.(*ast.Ident); ok {
+								if st, known := sliceTuple[info.Uses[sid]]; known {
+									ii, _ := ie.Index.(*ast.Ident)
+									switch {
+									case !(st == t && ii != nil && info.Uses[ii] == iv):
+										c.Fail("R02.2", "methodData|store|"+t, r.Pos(x.Pos()), fmt.Sprintf("the %s loop stores into %s (a slice sized by %s)", t, types.ExprString(x.Lhs[0]), st))
+									case se.Sel.Name == "Var":
+										okStore = true
+									case se.Sel.Name == "Variadic":
+										variadicExpr = x.Rhs[0]
+									}
+								}
+							}
+						}
+					}
+				}
 				if len(x.Lhs) == 1 && len(x.Rhs) == 1 {
 					if ie, ok := x.Lhs[0].(*ast.IndexExpr); ok {
 						if sid, ok := ie.X.(*ast.Ident); ok {
@@ -694,6 +714,29 @@ func checkMethodData(c *Ctx, r *Repo, ip *packages.Package, md *ast.FuncDecl) {
 		}
 		return true
 	})
+	if !good {
+		// the value may be built field by field: read what the successful paths return
+		paths, pd := enumerateFunc(info, md)
+		n, okAll := 0, !pd.overflow
+		for _, q := range paths {
+			if q.Exit != "return" || len(q.Ret) != 2 || q.Ret[1] != "nil" {
+				continue
+			}
+			_, vals, isLit := splitStructLit(q.Ret[0])
+			if !isLit {
+				okAll = false
+				continue
+			}
+			n++
+			st := stripRes(vals["Params"])
+			sr := stripRes(vals["Returns"])
+			if !(strings.HasSuffix(stripRes(vals["Name"]), "ARG1.Name()") && strings.HasPrefix(st, "builtin.make(") && strings.HasSuffix(st, ".Params().Len())") && strings.HasPrefix(sr, "builtin.make(") && strings.HasSuffix(sr, ".Results().Len())")) {
+				okAll = false
+				c.Fail("R02.2", "methodData|method-literal", r.Pos(q.RetPos), fmt.Sprintf("the returned template.Method is cross-wired: Name %s, Params %s, Returns %s", vals["Name"], vals["Params"], vals["Returns"]))
+			}
+		}
+		good = okAll && n > 0
+	}
 	if good {
 		c.OK("R02.2", "methodData|method-literal", r.Pos(md.Pos()), "Method{Name: method.Name(), Params: params, Returns: returns}")
 	}
